@@ -30,6 +30,7 @@ structure CatchBatchFx (iss : Seq) (N : Nat) (t : Tcb) (gs : List Segment) (d : 
   mtu : t'.mtu = t.mtu
   sub : ∀ tr ∈ t'.outgoing.retransmit, tr ∈ t.outgoing.retransmit
   una : off iss t'.snd.una ≤ N
+  umono : off iss t.snd.una ≤ off iss t'.snd.una
   oneApp : ∃ L, t'.outgoing.oneshot = t.outgoing.oneshot ++ L
   oneLast : gs ≠ [] → ∃ h, t'.outgoing.oneshot.getLast? = some h ∧ h.ack = t'.rcv.nxt
 
@@ -43,7 +44,8 @@ theorem catchList_fwd (iss : Seq) (N : Nat) (hN : N < 2147483648) (gs : List Seg
   induction gs with
   | nil =>
     intro t seq d hst hw hheap hiss hsent hu _ _ _ _ _
-    exact ⟨t, rfl, hst, hheap, by simp, rfl, by simp, rfl, rfl, rfl, fun _ h => h, hu, ⟨[], by simp⟩, fun h => absurd rfl h⟩
+    exact ⟨t, rfl, hst, hheap, by simp, rfl, by simp, rfl, rfl, rfl, fun _ h => h, hu, Nat.le_refl _, ⟨[], by simp⟩,
+      fun h => absurd rfl h⟩
   | cons g rest ih =>
     intro t seq d hst hw hheap hiss hsent hu hrun hseq hd31 hack hfit
     obtain ⟨hs, hrst, hsyn, hfin, hackb, hne, hlen, hrun'⟩ := hrun
@@ -64,7 +66,7 @@ theorem catchList_fwd (iss : Seq) (N : Nat) (hN : N < 2147483648) (gs : List Seg
         (by show t.incoming.text.length + (segBytes rest - (d - g.text.length)) ≤ 65535; omega)
       have hsb : segBytes (g :: rest) - d = segBytes rest - (d - g.text.length) := by rw [segBytes_cons]; omega
       refine ⟨t', by simp only [arriveList, e1]; exact e', bf.st, bf.heap, by rw [bf.nxt, hsb], bf.rwnd,
-        by rw [bf.buf, hsb], bf.otext, bf.snxt, bf.mtu, bf.sub, bf.una, ?_, fun _ => ?_⟩
+        by rw [bf.buf, hsb], bf.otext, bf.snxt, bf.mtu, bf.sub, bf.una, bf.umono, ?_, fun _ => ?_⟩
       · obtain ⟨L, hL⟩ := bf.oneApp
         exact ⟨[t.ackHdr.built] ++ L, by rw [hL]; simp⟩
       · by_cases hr : rest = []
@@ -82,17 +84,22 @@ theorem catchList_fwd (iss : Seq) (N : Nat) (hN : N < 2147483648) (gs : List Seg
       have hp : Plain t g.hdr := ⟨hrst, hsyn, hfin, hackb, hgood⟩
       obtain ⟨t1, t2, e1, fx, cx⟩ := arrive_catch_fwd t g d hst hw hheap hp hne (by rw [hs]; exact hseq) hdl hlen (by omega)
       have k := segmentArrives_snd t g t2 .Ok e1
-      have hu1 : off iss t1.snd.una ≤ N := by
+      have hu1 : off iss t1.snd.una ≤ N ∧ off iss t.snd.una ≤ off iss t1.snd.una := by
         rw [fx.una]
         split
-        · exact hu
-        · exact ha2
+        · exact ⟨hu, Nat.le_refl _⟩
+        · rename_i hle
+          have := (modLeq_iff_off iss g.hdr.ack t.snd.una (by omega) (by omega)).2
+          refine ⟨ha2, ?_⟩
+          rcases Nat.lt_or_ge (off iss t.snd.una) (off iss g.hdr.ack) with h | h
+          · omega
+          · exact absurd (this h) hle
       obtain ⟨t', e', bf⟩ := ih t2 (seq + BitVec.ofNat 32 g.text.length) 0 (by rw [cx.st, fx.st, hst])
         (by rw [cx.rwnd, fx.rcv, hw]) (by rw [cx.heap, fx.inc, hheap]) (by rw [k.iss, hiss])
-        (by rw [sent_congr k.iss k.nxt]; exact hsent) (by rw [cx.snd]; exact hu1) hrun'
+        (by rw [sent_congr k.iss k.nxt]; exact hsent) (by rw [cx.snd]; exact hu1.1) hrun'
         (by
           rw [cx.nxt, fx.rcv, ← hseq]
-          simp only [BitVec.ofNat_eq_ofNat, BitVec.add_zero]
+          simp only [BitVec.add_zero]
           obtain ⟨j, hj⟩ : ∃ j, g.text.length = d + j := ⟨g.text.length - d, by omega⟩
           have hj' : g.text.length - d = j := by omega
           rw [hj', hj, BitVec.ofNat_add]
@@ -103,8 +110,8 @@ theorem catchList_fwd (iss : Seq) (N : Nat) (hN : N < 2147483648) (gs : List Seg
         (by rw [cx.text, fx.inc, List.length_append, List.length_drop]; omega)
       have hsb : segBytes (g :: rest) - d = (g.text.length - d) + (segBytes rest - 0) := by rw [segBytes_cons]; omega
       refine ⟨t', by simp only [arriveList, e1]; exact e', bf.st, bf.heap, ?_, by rw [bf.rwnd, cx.rwnd, fx.rcv], ?_,
-        by rw [bf.otext, cx.otext, fx.otext], by rw [bf.snxt, cx.snd, fx.nxt], by rw [bf.mtu, cx.mtu, fx.mtu], ?_, bf.una, ?_,
-        fun _ => ?_⟩
+        by rw [bf.otext, cx.otext, fx.otext], by rw [bf.snxt, cx.snd, fx.nxt], by rw [bf.mtu, cx.mtu, fx.mtu], ?_, bf.una,
+        ?_, ?_, fun _ => ?_⟩
       · rw [bf.nxt, cx.nxt, fx.rcv, hsb, BitVec.add_assoc, ← BitVec.ofNat_add]
       · rw [bf.buf, cx.text, fx.inc, List.length_append, List.length_drop, hsb]; omega
       · intro tr htr
@@ -113,6 +120,9 @@ theorem catchList_fwd (iss : Seq) (N : Nat) (hN : N < 2147483648) (gs : List Seg
         split at this
         · exact this
         · exact (List.mem_filter.1 this).1
+      · have := bf.umono
+        rw [cx.snd] at this
+        exact Nat.le_trans hu1.2 this
       · obtain ⟨L, hL⟩ := bf.oneApp
         obtain ⟨h, hh, _⟩ := cx.one
         exact ⟨[h] ++ L, by rw [hL, hh, fx.one]; simp⟩
